@@ -463,7 +463,9 @@ class Arm(Robot):
         free_thetas = solver_result.x
         theta = np.squeeze(theta_init)
         theta[inds] = np.squeeze(free_thetas)
-        if fmr.Norm6((goal_position - self.FK(theta))[0:6]) < 0.001:
+        error = (goal_position - self.FK(theta)).gTAA().flatten()
+        if (np.linalg.norm(error[0:3]) <= self.pos_tolerance and
+                np.linalg.norm(error[3:6]) <= self.rot_tolerance):
             return (theta, True)
         return (theta, False)
 
